@@ -123,7 +123,9 @@ class C20(Prop):
         "gen_IMax", "gen_IMin", "gen_LMax", "gen_LMin", "gen_max_empty", "gen_ISum_exact", "gen_LSum_exact", "gen_ISum_overflow", "gen_DSum", "gen_DSum_real",
         "gen_argmax_eq", "gen_argmin_eq", "gen_IArgMax", "gen_IArgMin", "gen_LArgMax", "gen_LArgMin", "gen_IDot_exact", "gen_LDot_exact", "gen_DDot",
         "gen_Reverse", "gen_Reverse_inplace", "gen_Reverse_involution", "gen_Set", "gen_Copy", "gen_Scale", "gen_Increment", "gen_Add", "gen_AddScaled",
-        "gen_mat_flat")]
+        "gen_mat_flat", "gen_ICompare", "gen_LCompare", "gen_DCompare", "gen_DCompare_real", "compare_real_refl", "compare_real_symm", "compare_real_tol_zero",
+        "compareOld_inf_nan", "gen_Swap", "gen_IScale_exact", "gen_LScale_exact", "gen_IIncrement_exact", "gen_LIncrement_exact", "gen_IAdd_exact", "gen_LAdd_exact",
+        "gen_IAddScaled_exact", "gen_LAddScaled_exact", "gen_mat_Compare_flat")]
     claimed = True
     level_text = ("Theorems (Lean kernel): each of the 33 SSE/AVX/AVX-512 helper inlines, as regenerated from the headers of the working tree, equals the scalar "
                   "loop over its lanes for every lane pattern (hmax = fold max; any_gt = exists lane; select/shifts lane-wise with the documented fill; float "
@@ -160,7 +162,9 @@ class C20(Prop):
                    "the shared generic definitions (LogSum/Log2Sum bounds proved for both windows, 500 and 50)",
                    "integer (I/L) routines modelled on unbounded Int: signed overflow is undefined behaviour in C and the generators stay in range",
                    "esl_mat_* : Create/Clone/GrowTo/Sizeof/Set/Scale/Copy/Max modelled as a flat block + row-pointer arithmetic (Vec/Mat.lean); allocation failure paths not modelled",
-                   "not modelled: Shuffle/Dump/Compare, esl_mat_WCopy/BCopy, esl_avx/avx512 .c dump utilities"]
+                   "esl_{D,F}Compare_old (easel.c) is a hand model (Vec.compareOld) tied by the exact differential op `cmpold`; D2F/F2D/I2F/I2D are the "
+                   "hardware conversions of Lean's Float/Float32 (bit-exact differential op `cvt`), no theorem beyond element-wise `map`",
+                   "not modelled here: esl_vec_*Shuffle/Shuffle64 (property C18), esl_vec_*Dump / esl_mat_*Dump / esl_sse_dump_* / esl_avx*_dump_* (text output)"]
     rule = ("cases = op batches: every intrinsic of the table x lane views x immediates; every helper with the maximum in each lane, each boundary "
             "value in each lane, dense random lanes; logf/expf stratified over every exponent x boundary mantissas + threshold neighbourhoods + random; "
             "vector routines over lengths 0..1000 with ties, signed zeros, infinities, -inf log entries, spreads of hundreds of log units; "
@@ -703,6 +707,138 @@ class C20(Prop):
                     ops.append("cmp op=%s%s a=%s b=%s" % (T, d, enc(a), enc(b)))
         return [{"name": "cmp%d" % i, "ops": ops[i:i + 60]} for i in range(0, len(ops), 60)]
 
+    # ---- approximate / exact equality of vectors, esl_{D,F}Compare_old, conversions
+    def compare_cases(self, ctx):
+        rng = ctx.rng
+        quick = ctx.tier == "quick"
+        ops = []
+        inf, nan = math.inf, math.nan
+        for T in "DF":
+            enc = (lambda x: "%016x" % bits_of_f64(x)) if T == "D" else (lambda x: "%08x" % bits_of_f32(x))
+            fix = (lambda x: x) if T == "D" else (lambda x: f32_of_bits(bits_of_f32(x)))
+            big, tiny, eps = (1e308, 5e-324, 2.0 ** -52) if T == "D" else (3e38, 1.5e-45, 2.0 ** -23)
+            vals = [0.0, -0.0, 1.0, -1.0, 1.0 + eps, 1.0 - eps / 2, 1.01, 0.99, 2.0, 1e-3, -1e-3, tiny, -tiny, big, -big, inf, -inf, nan, 3.0, -3.0, 1e-9, 100.0, 101.0]
+            tols = [0.0, eps, 1e-6, 0.01, 0.1, 1.0, 2.0, 2.5, inf, nan, -1.0, tiny]
+            pairs = [(a, b) for a in vals for b in vals]
+            rng.shuffle(pairs)
+            for a, b in pairs[: (160 if quick else len(pairs))] + [(x, -x) for x in (1.0, tiny, big, 0.5)] + [(inf, -inf), (nan, nan), (inf, nan), (0.0, -0.0)]:
+                for t in rng.sample(tols, 3):
+                    ops.append("cmpold op=%s a=%s b=%s s=%s" % (T, enc(fix(a)), enc(fix(b)), enc(fix(t))))
+            for _ in range(150 if quick else 2000):      # relative differences on both sides of the tolerance
+                a = fix(math.ldexp(rng.uniform(0.5, 1), rng.randrange(-40, 40)) * rng.choice([1, -1]))
+                t = fix(rng.choice([1e-6, 1e-3, 0.01, 0.5, 1.9, 2.0, 2.1, 1e-12 if T == "D" else 1e-5]))
+                r = t * rng.choice([0.5, 0.9, 0.999, 1.001, 1.1, 2.0, 1.0])
+                b = fix(a * (1 + r) if rng.random() < 0.5 else a * (1 - r))
+                if rng.random() < 0.1: b = -b
+                ops.append("cmpold op=%s a=%s b=%s s=%s" % (T, enc(a), enc(b), enc(t)))
+            hx = hex_f64s if T == "D" else hex_f32s
+            for n in [0, 1, 2, 3, 8, 17, 64, 255, rng.randrange(2, 400)]:
+                for rep in range(3 if quick else 12):
+                    x = self.rand_vec(rng, n, rng.choice(["uni", "ties", "wide", "zeros", "inf"]), T)
+                    t = fix(rng.choice([0.0, 1e-6, 0.01, 1.0]))
+                    ys = [list(x)]
+                    if n:
+                        for pos in {0, n - 1, rng.randrange(n)}:
+                            y = list(x)
+                            y[pos] = fix(rng.choice([y[pos] * (1 + 3 * t) + 1e-3, y[pos] * (1 + t / 3), -y[pos] if y[pos] else 1.0, 0.0, nan, inf, y[pos] + 1.0]))
+                            ys.append(y)
+                    for y in ys:
+                        line = "vec op=%sCompare x=%s y=%s s=%s" % (T, hx(x), hx(y), enc(t))
+                        if n > 1 and rng.random() < 0.3: line += " n=%d" % rng.randrange(0, n)
+                        ops.append(line)
+                        if n and rng.random() < 0.3:
+                            M = rng.choice([d for d in (1, 2, 3, 4, 5, 8) if n % d == 0])
+                            ops.append("vec op=%sMatCompare m=%d x=%s y=%s s=%s" % (T, M, hx(x), hx(y), enc(t)))
+        for T, k in (("I", 4), ("L", 8)):
+            bits = 8 * k; lo, hi = -(1 << (bits - 1)), (1 << (bits - 1)) - 1
+            edge = [lo, hi, 0, 1, -1, 1 << 30, -(1 << 30), 2000000000] + ([1 << 31, 1 << 32, -(1 << 32), 1 << 62, (1 << 32) + 5] if T == "L" else [])
+            def hxi(v): return b"".join(int(x).to_bytes(k, "little", signed=True) for x in v).hex() or "-"
+            for n in [0, 1, 2, 3, 8, 17, 64, 255, rng.randrange(2, 400)]:
+                for rep in range(4 if quick else 16):
+                    x = [rng.choice(edge) if rng.random() < 0.3 else rng.randrange(-50, 50) for _ in range(n)]
+                    ys = [list(x)]
+                    if n:
+                        for pos in {0, n - 1, rng.randrange(n)}:
+                            y = list(x)
+                            # differences that a narrower comparison would miss: only the sign bit, only bits >= 32, +-1
+                            d = rng.choice([1, -1, 1 << (bits - 1), 1 << (bits - 2)] + ([1 << 32, 1 << 33, 1 << 40] if T == "L" else [1 << 16]))
+                            y[pos] = ((y[pos] + d - lo) % (1 << bits)) + lo
+                            ys.append(y)
+                    for y in ys:
+                        line = "vec op=%sCompare x=%s y=%s" % (T, hxi(x), hxi(y))
+                        if n > 1 and rng.random() < 0.3: line += " n=%d" % rng.randrange(0, n)
+                        ops.append(line)
+                        if T == "I" and n and rng.random() < 0.3:
+                            M = rng.choice([d for d in (1, 2, 3, 4, 5, 8) if n % d == 0])
+                            ops.append("vec op=IMatCompare m=%d x=%s y=%s" % (M, hxi(x), hxi(y)))
+        # conversions
+        dspec = [0.0, -0.0, 1.0, -1.0, inf, -inf, nan, 3.4028234663852886e38, 3.4028235677973366e38, 3.4028235677973362e38, 3.402823669209385e38, 1e39, -1e39, 1e300,
+                 1.401298464324817e-45, 7.006492321624085e-46, 7.006492321624087e-46, 7.0e-46, 1e-46, 1.1754943508222875e-38, 1.1754942e-38, 5e-324,
+                 1.0 + 2.0 ** -24, 1.0 + 2.0 ** -24 + 2.0 ** -50, 1.0 + 3 * 2.0 ** -24, 1.0 - 2.0 ** -25, 16777217.0, 16777219.0, 0.1, 1 / 3.0]
+        for _ in range(6 if quick else 40):
+            n = rng.choice([0, 1, 5, 33, rng.randrange(1, 300)])
+            v = [rng.choice(dspec) if rng.random() < 0.4 else rng.choice([rng.uniform(-10, 10), math.ldexp(rng.uniform(-1, 1), rng.randrange(-160, 140)), f64_of_bits(rng.randrange(1 << 64))]) for _ in range(n)]
+            ops.append("cvt op=D2F x=%s" % hex_f64s(v))
+            ops.append("cvt op=F2D x=%s" % hex_u32s([rng.choice(BOUNDARY["f"]) if rng.random() < 0.3 else rng.randrange(1 << 32) for _ in range(n)]))
+            iv = [rng.choice([0, 1, -1, 16777216, 16777217, 16777219, -16777217, 33554433, 33554434, 33554435, (1 << 31) - 1, -(1 << 31), (1 << 31) - 64, (1 << 31) - 65, 2147483520, 2147483583, 2147483584, 123456789])
+                  if rng.random() < 0.5 else rng.randrange(-(1 << 31), 1 << 31) for _ in range(n)]
+            hv = b"".join(int(x).to_bytes(4, "little", signed=True) for x in iv).hex() or "-"
+            ops.append("cvt op=I2F x=%s" % hv); ops.append("cvt op=I2D x=%s" % hv)
+        rng.shuffle(ops)
+        return [{"name": "compare%d" % i, "ops": ops[i:i + 40]} for i in range(0, len(ops), 40)]
+
+    @staticmethod
+    def cmpold_spec(T, a, b, tol):
+        """documented meaning of esl_{D,F}Compare_old on exact values: 0 (eslOK) / 1 (eslFAIL) / None (too close to the tolerance to call)"""
+        if math.isinf(a) and math.isinf(b): return 0          # (any signs: the code's `isinf(a) && isinf(b)`)
+        if math.isnan(a) and math.isnan(b): return 0
+        if not math.isfinite(a) or not math.isfinite(b): return 1
+        if a == b: return 0
+        if math.isnan(tol): return 1
+        # one side zero: `fabs(other) <= tol`, else the relative test, whose quotient is then exactly 2 (so any tol >= 2 accepts)
+        top = 2.0 ** 1022 if T == "D" else 2.0 ** 126
+        if a == 0 or b == 0:
+            o = abs(b) if a == 0 else abs(a)
+            if o <= tol: return 0
+            if o >= top: return None
+            return 0 if tol >= 2 else 1
+        fa, fb = Fraction(a), Fraction(b)
+        if abs(fa - fb) >= Fraction(top): return None
+        if fa + fb == 0: return 0 if tol == math.inf else 1
+        if tol == math.inf: return 0
+        if tol == -math.inf: return 1
+        q = 2 * abs(fa - fb) / abs(fa + fb); ft = Fraction(tol)
+        slack = Fraction(1, 10 ** 12) if T == "D" else Fraction(1, 10 ** 5)
+        if tol == 0 or abs(q - ft) <= slack * max(q, abs(ft)): return None
+        if T == "F" and (abs(fa - fb) < Fraction(2) ** -120 or abs(fa + fb) < Fraction(2) ** -120 or abs(fa + fb) > Fraction(2) ** 127): return None   # a-b / a+b rounded in binary32
+        if T == "D" and (abs(fa - fb) < Fraction(2) ** -1000 or abs(fa + fb) < Fraction(2) ** -1000 or abs(fa + fb) > Fraction(2) ** 1023 or q > Fraction(2) ** 1000): return None
+        return 0 if q <= ft else 1
+
+    def compare_check(self, name, kvs, line):
+        got = line.split()[1] if len(line.split()) > 1 else ""
+        if name == "cmpold":
+            T = kvs["op"]
+            dec = (lambda h: f64_of_bits(int(h, 16))) if T == "D" else (lambda h: f32_of_bits(int(h, 16)))
+            a, b, t = dec(kvs["a"]), dec(kvs["b"]), dec(kvs["s"])
+            e = self.cmpold_spec(T, a, b, t)
+            return None if e is None or got == str(e) else "esl_%sCompare_old(%r, %r, %r) = %s, documented result %d" % (T, a, b, t, got, e)
+        if name == "cvt":
+            o = kvs["op"]; xb = unhex(kvs.get("x", "-"))
+            if o == "D2F":
+                exp = []
+                for x in f64s(xb):
+                    try: u = bits_of_f32(x)
+                    except OverflowError: u = 0x7f800000 if x > 0 else 0xff800000
+                    exp.append(0x7fc00000 if isnan32(u) else u)
+                e = hex_u32s(exp)
+            elif o == "F2D":
+                e = b"".join(struct.pack("<Q", 0x7ff8000000000000 if isnan32(u) else bits_of_f64(f32_of_bits(u))) for u in u32s(xb)).hex() or "-"
+            else:
+                iv = [int.from_bytes(xb[i:i + 4], "little", signed=True) for i in range(0, len(xb), 4)]
+                e = hex_u32s([bits_of_f32(float(x)) for x in iv]) if o == "I2F" else (hex_f64s([float(x) for x in iv]))
+            return None if got == e else "esl_vec_%s: element-wise conversion differs (got %s, expected %s)" % (o, got[:48], e[:48])
+        return None
+
     def cmp_check(self, kvs, line):
         T, inc = kvs["op"][0], kvs["op"][1:] == "Increasing"
         ua, ub = int(kvs["a"], 16), int(kvs["b"], 16)
@@ -754,12 +890,12 @@ class C20(Prop):
         return self.int_ref(T, nm, x, y, int(kvs.get("k", "1"))) == "fault"
 
     def cases(self, ctx):
-        out = self.cmp_cases(ctx) + self.intr_cases(ctx) + self.helper_cases(ctx) + self.logexp_cases(ctx) + self.vec_cases(ctx) + self.mat_cases(ctx)
+        out = self.cmp_cases(ctx) + self.compare_cases(ctx) + self.intr_cases(ctx) + self.helper_cases(ctx) + self.logexp_cases(ctx) + self.vec_cases(ctx) + self.mat_cases(ctx)
         st = {}
         for c in out:
             for op in c["ops"]:
                 w = op.split()
-                key = w[0] + ":" + (w[1].split("=")[1] if len(w) > 1 and w[0] in ("simd", "intr", "vec", "lane32", "mat", "cmp") else "")
+                key = w[0] + ":" + (w[1].split("=")[1] if len(w) > 1 and w[0] in ("simd", "intr", "vec", "lane32", "mat", "cmp", "cmpold", "cvt") else "")
                 st[key] = st.get(key, 0) + 1
         self._dist = st
         return out
@@ -796,7 +932,8 @@ class C20(Prop):
             yb0 = unhex(kvs.get("y", "-")); y0 = [int.from_bytes(yb0[i:i + k], "little", signed=True) for i in range(0, len(yb0), k)]
             if self.int_ref(T, name, x, y0, int(kvs.get("k", "1"))) == "fault":
                 return "%s%s: the true result is not representable (signed overflow) but the routine answered %s" % (T, name, res[:40])
-            if name == "Sum": exp = str(sum(x))
+            if name in ("Compare", "MatCompare"): exp = "0" if x == y0 else "1"
+            elif name == "Sum": exp = str(sum(x))
             elif name in ("Max", "MatMax"): exp = str(max(x))
             elif name == "MatSet": exp = b"".join(int(kvs.get("k", "1")).to_bytes(k, "little", signed=True) for v in x).hex() or "-"
             elif name == "MatCopy": exp = kvs.get("x", "-")
@@ -839,6 +976,13 @@ class C20(Prop):
             if math.isnan(got): return False
             if math.isinf(got): return False
             return abs(Fraction(got) - exact) <= tol
+        if name in ("Compare", "MatCompare"):
+            tol = f64_of_bits(int(kvs["s"], 16)) if T == "D" else f32_of_bits(int(kvs["s"], 16))
+            es = [self.cmpold_spec(T, a, b, tol) for a, b in zip(x, y)]
+            if 1 in es[: (es.index(None) if None in es else len(es))] or (None not in es):
+                e = 1 if 1 in es else 0
+                return None if w[1] == str(e) else "%s%s: returned %s, the element-wise test gives %d" % (T, name, w[1], e)
+            return None
         if name == "Sum":
             if not finite: return None
             ex = exact_sum(x); sa = exact_sum([abs(v) for v in x])
@@ -1019,6 +1163,9 @@ class C20(Prop):
             elif name == "cmp":
                 m = self.cmp_check(kvs, l)
                 if m: return Failure("monitor", m)
+            elif name in ("cmpold", "cvt"):
+                m = self.compare_check(name, kvs, l)
+                if m: return Failure("monitor", m + "  [%s]" % op[:160])
             elif name == "mat":
                 m = self.mat_check(kvs, l)
                 if m: return Failure("monitor", m + "  [%s]" % op[:120])
